@@ -536,10 +536,10 @@ impl Prop for C08DeepMates {
         40
     }
     fn strategy(&self, _tier: Tier) -> BoxedStrategy<(String, u8)> {
-        (gen::mating_material(), 5u8..=6).boxed()
+        (gen::mating_material(), prop_oneof![1 => Just(5u8), 3 => Just(6u8)]).boxed()
     }
     fn cases(&self, tier: Tier) -> u32 {
-        tier.pick(32, 480)
+        tier.pick(112, 1_200)
     }
     fn test(&self, c: &(String, u8), st: &mut Stats) -> TestResult {
         let pos = Pos::from_fen(&c.0).map_err(Failure::new)?;
